@@ -32,6 +32,18 @@ def run(ctx):
         "PostgreSQL code paths are not executable here",
     ]
     with core.Lock():
+        # T-tie: CollectionSummary.add_data_ids_generator (translated) and is_compatible_with (recognised) are generated from the
+        # working tree into Gen/SummaryPy.lean; C02.Translated.summary_never_hides (a collection holding a matching dataset is never
+        # pruned from a query through its summary) is proved about the generated definitions
+        import sys as _sys
+
+        _sys.path.insert(0, os.path.join(core.VERIF, "translate"))
+        try:
+            import gen_summary
+
+            gen_summary.generate(core.GEN_DIR)
+        except Exception as e:
+            ctx.broken.append(f"translation: CollectionSummary: {type(e).__name__}: {e}")
         built = core.lean_build(ctx, LEAN_TARGETS)
         if built:
             core.lean_audit(ctx, ["ButlerModel.Props.C02"])
